@@ -219,6 +219,29 @@ def crash_oracle(case, obs):
                     if sent_at >= down[1] + tick:
                         out.append(("event %d: the client received a reply to datagram %d (sent at %d ns) while n0 is down since event %d" % (
                             k, x[4], sent_at, down[0]), None))
+    # --- what reached the server while it was down is not handed to the new incarnation ----------
+    down_from = None
+    client_untouched = not any(1 in vv for (_, _, vv, _, _, _) in faults)   # ids / attempts are numbered per client incarnation
+    for (k, name, victims, before, after, r) in faults:
+        if 0 not in victims or r != "ok" or not client_untouched:
+            continue
+        if name == "crash" and before["hosts"][0]["running"]:
+            down_from = before["elapsed"] if down_from is None else down_from
+        elif name == "bounce" and down_from is not None:
+            up = before["elapsed"]
+            new_inc = after["hosts"][0]["starts"] - 1
+            for x in log:
+                # datagram id i was sent by the client at i * tick (ids 1000+i: the multicast copy)
+                if x[0] == 0 and x[1] == new_inc and x[2] == "udp" and x[3] == "recv":
+                    sent = (x[4] % 1000) * tick
+                    if down_from + tick <= sent and sent + lat + tick <= up:
+                        out.append(("event %d: datagram %d reached n0 while it was down (sent %d ns, down %d..%d ns) and was delivered to its new incarnation" % (
+                            k, x[4], sent, down_from, up), None))
+                if x[0] == 1 and x[2] == "F" and x[3] == "try" and down_from + tick <= x[7] and x[7] + lat + tick <= up:
+                    res = [y for y in log if y[0] == 1 and y[1] == x[1] and y[2] == "F" and y[3] == "result" and y[4] == x[4]]
+                    if res and res[0][5] == "ok":
+                        out.append(("event %d: connect attempt #%d reached n0 while it was down and was served by its new incarnation" % (k, x[4]), None))
+            down_from = None
     # --- after a bounce the fixed ports can be bound again -------------------------------------
     for e in log:
         if e[3] == "bind" and e[5] != "ok":
